@@ -1,4 +1,5 @@
 """C17 - sample-table operations preserve the physical orbit and its metadata."""
+import collections
 import math
 
 import numpy as np
@@ -24,7 +25,7 @@ BUDGET = {"quick": 70, "thorough": 700}
 
 @st.composite
 def tables(draw, max_n=40):
-    n = draw(st.integers(1, max_n))
+    n = draw(st.one_of(st.integers(1, 12), st.integers(1, max_n)))
     poly = draw(st.integers(1, 3))
     noff = draw(st.integers(0, 2))
     un = {"P": draw(st.sampled_from(["d", "yr", "h"])), "omega": draw(st.sampled_from(og.ANG_UNITS)),
@@ -51,7 +52,9 @@ def tables(draw, max_n=40):
             "logprobs": draw(st.booleans()), "t_ref": draw(st.one_of(st.none(), gens.fl(50000.0, 59000.0).map(lambda x: gens.rounded(x, 9)))),
             "phase": gens.rounded(draw(gens.fl(-4 * math.pi, 4 * math.pi)), 9), "phase_unit": draw(st.sampled_from(og.ANG_UNITS)),
             "index_seed": draw(st.integers(0, 10**6)), "t_ref_scale": draw(st.sampled_from(["tcb", "tcb", "utc", "tt", "tdb"])),
-            "times": [gens.rounded(draw(gens.fl(-300, 300)), 6) for _ in range(12)]}
+            "times": [gens.rounded(draw(gens.fl(-300, 300)), 6) for _ in range(12)],
+            # columns held in single precision (a library drawn with dtype=float32 next to double-precision columns)
+            "f4": draw(st.one_of(st.just([]), st.just([]), st.lists(st.sampled_from(["P", "e", "s", "v0"]), unique=True, max_size=4)))}
 
 
 CANON = {"P": "d", "omega": "rad", "M0": "rad", "s": "km/s", "K": "km/s", "v0": "km/s"}
@@ -79,10 +82,11 @@ def build(case):
         ["dv0_%d" % (i + 1) for i in range(case["noff"])]
     for nm in names:
         col = np.array([r[nm] for r in case["rows"]], dtype=float)
-        if nm == "e":
-            s[nm] = col
-        else:
-            s[nm] = og.conv(col, canon_unit(nm), case["units"][nm]) * og.unit(case["units"][nm])
+        if nm != "e":
+            col = np.asarray(og.conv(col, canon_unit(nm), case["units"][nm]), dtype=float)
+        if nm in case.get("f4", ()):
+            col = col.astype(np.float32)
+        s[nm] = col if nm == "e" else col * og.unit(case["units"][nm])
     if case["logprobs"]:
         s["ln_prior"] = -np.arange(case["n"], dtype=float) * 0.5
         s["ln_likelihood"] = np.cos(np.arange(case["n"], dtype=float))
@@ -121,6 +125,11 @@ def body_factory(ctx):
         allnames = list(s.par_names)
         K0 = s["K"].to_value(u.km / u.s).copy()
         neg = K0 < 0
+        f4 = set(case.get("f4", ()))
+        for nm in f4:
+            if s[nm].dtype != np.float32:
+                f4 = set()      # the table does not keep single precision: nothing special to expect
+                break
         # ------------------------------------------------------------ indexing / copy / reductions keep metadata
         g = np.random.default_rng(case["index_seed"])
         k = int(g.integers(0, n))
@@ -148,6 +157,20 @@ def body_factory(ctx):
                     raise Violation("samples[%s] changed the unit of %s" % (kind, nm))
                 if not np.array_equal(np.atleast_1d(sub[nm].value), np.asarray(s[nm].value)[sel]):
                     raise Violation("samples[%s] does not hold the requested rows of %s" % (kind, nm))
+        for kind, key in (("empty slice", slice(k, k)), ("all-False mask", np.zeros(n, dtype=bool)),
+                          ("empty index array", np.zeros(0, dtype=int))):
+            with ctx.sut("samples[%s]" % kind):
+                sub = s[key]
+                subc = sub.copy()
+            for what, x in ((kind, sub), ("copy() of " + kind, subc)):
+                if len(x) != 0:
+                    raise Violation("samples[%s] selects no row but the result has %d" % (what, len(x)))
+                if meta_of(x) != m0 or list(x.par_names) != allnames:
+                    raise Violation("samples[%s] (no row selected) lost metadata or columns" % what, before=m0, after=meta_of(x),
+                                    names=list(x.par_names), expected=allnames)
+                for nm in allnames:
+                    if x[nm].unit != units0[nm]:
+                        raise Violation("samples[%s] (no row selected) changed the unit of %s" % (what, nm))
         with ctx.sut("copy()"):
             c = s.copy()
         if meta_of(c) != m0 or list(c.par_names) != allnames:
@@ -164,8 +187,9 @@ def body_factory(ctx):
                 if not r[nm].unit.is_equivalent(units0[nm]):
                     raise Violation("%s() changed the unit of %s" % (fname, nm))
                 want = f(np.asarray(s[nm].value, dtype=float))
-                if not np.isclose(r[nm].to_value(units0[nm])[0], want, rtol=1e-10, atol=1e-300):
-                    raise Violation("%s() of column %s is wrong" % (fname, nm), got=r[nm][0], want=want)
+                atol = 1e-5 * float(np.max(np.abs(np.asarray(s[nm].value, dtype=float)))) if nm in f4 else 1e-300
+                if not np.isclose(float(r[nm].to_value(units0[nm])[0]), want, rtol=1e-4 if nm in f4 else 1e-10, atol=atol):
+                    raise Violation("%s() of column %s is wrong" % (fname, nm), got=float(r[nm].value[0]), want=float(want))
         with ctx.sut("median_period()"):
             mp = s.median_period()
         if meta_of(mp) != m0 or len(mp) != 1 or list(mp.par_names) != allnames:
@@ -187,7 +211,7 @@ def body_factory(ctx):
         for nm in allnames:
             if not back[nm].unit.is_equivalent(units0[nm]):
                 raise Violation("pack/unpack: unit of %s not equivalent" % nm)
-            if not np.allclose(back[nm].to_value(units0[nm]), s[nm].value, rtol=1e-12, atol=1e-300):
+            if not np.allclose(back[nm].to_value(units0[nm]), s[nm].value, rtol=1e-6 if nm in f4 else 1e-12, atol=1e-300):
                 raise Violation("pack/unpack changed the values of %s" % nm)
         with ctx.sut("pack(units=own units)"):
             packed2, pun2 = s.pack(units=dict(units0), names=allnames)
@@ -207,13 +231,30 @@ def body_factory(ctx):
                             asked=names_p, got=list(back4.par_names), user_units=[str(k_) for k_ in user_units])
         for nm in names_p:
             if not back4[nm].unit.is_equivalent(units0[nm]) or not np.allclose(
-                    back4[nm].to_value(units0[nm]), s[nm].value, rtol=1e-12, atol=1e-300):
+                    back4[nm].to_value(units0[nm]), s[nm].value, rtol=1e-6 if nm in f4 else 1e-12, atol=1e-300):
                 raise Violation("pack/unpack with a caller-chosen column order changed the values of %s" % nm,
                                 asked=names_p, user_units=[str(k_) for k_ in user_units])
         with ctx.sut("pack()"):
             p3, u3 = s.pack()
         if list(u3.keys()) != ["P", "e", "omega", "M0", "s"] or p3.shape != (n, 5):
             raise Violation("default pack() must give the five nonlinear columns", keys=list(u3.keys()))
+        # a units mapping that describes more columns than the array has: the code takes the leading entries; a result,
+        # if one is returned, must hold the packed rows under the leading names
+        lin = [nm for nm in allnames if nm not in u3 and nm not in ("ln_prior", "ln_likelihood")]
+        ext = collections.OrderedDict(u3)
+        for nm in lin[:1 + int(g.integers(0, len(lin)))]:
+            ext[nm] = units0[nm]
+        try:
+            b5 = tj.JokerSamples.unpack(p3, ext, t_ref=s.t_ref, poly_trend=case["poly"], n_offsets=case["noff"])
+        except (ValueError, TypeError):
+            b5 = None       # refusing the longer mapping would be a clean answer too
+        if b5 is not None:
+            if list(b5.par_names) != list(u3.keys()) or len(b5) != n:
+                raise Violation("unpack of %d nonlinear-only rows with a %d-entry units mapping gives other columns / rows" % (n, len(ext)),
+                                names=list(b5.par_names), rows=len(b5), n=n, units=[str(k_) for k_ in ext])
+            for j, nm in enumerate(u3):
+                if not np.array_equal(b5[nm].to_value(u3[nm]), p3[:, j]):
+                    raise Violation("unpack with a longer units mapping changed the values of %s" % nm)
         if not np.allclose(p3[:, 0], s["P"].to_value(u.day), rtol=1e-14) or not np.allclose(p3[:, 2], s["omega"].to_value(u.rad), rtol=1e-14, atol=1e-300):
             raise Violation("default pack() does not convert to (day, rad)")
         # ------------------------------------------------------------ times of given phase
@@ -238,7 +279,7 @@ def body_factory(ctx):
                 raise Violation("%s returned %d times for %d samples" % (which, dt.size, n))
             M = 2 * np.pi * dt / P_d - M0
             d = np.abs(np.mod(M - ph + np.pi, 2 * np.pi) - np.pi)
-            tol = 1e-7 + 2 * np.pi * 2e-11 / P_d
+            tol = 1e-7 + 2 * np.pi * 2e-11 / P_d + (1e-4 if "P" in f4 else 0.0)
             if np.any(d > tol):
                 j = int(np.argmax(d - tol))
                 raise Violation("%s: mean anomaly at the returned time is not the requested phase" % which,
@@ -250,7 +291,7 @@ def body_factory(ctx):
                 t0b = s.get_t0(t_ref=tr2)
             dt = np.atleast_1d((t0b - tr2).to_value(u.day))
             d = np.abs(np.mod(2 * np.pi * dt / P_d - M0 + np.pi, 2 * np.pi) - np.pi)
-            if np.any(d > 1e-7 + 2 * np.pi * 2e-11 / P_d):
+            if np.any(d > 1e-7 + 2 * np.pi * 2e-11 / P_d + (1e-4 if "P" in f4 else 0.0)):
                 raise Violation("get_t0 called again with another reference epoch still answers for the first one",
                                 worst=float(d.max()))
         M0_new = np.mod(M0 + 1.0, 2 * np.pi)
@@ -259,7 +300,7 @@ def body_factory(ctx):
             t0c = s.get_t0(t_ref=tref_arg)
         dt = np.atleast_1d((t0c - tr).to_value(u.day))
         d = np.abs(np.mod(2 * np.pi * dt / P_d - M0_new + np.pi, 2 * np.pi) - np.pi)
-        if np.any(d > 1e-7 + 2 * np.pi * 2e-11 / P_d):
+        if np.any(d > 1e-7 + 2 * np.pi * 2e-11 / P_d + (1e-4 if "P" in f4 else 0.0)):
             raise Violation("get_t0 after re-assigning M0 does not use the new values", worst=float(d.max()))
         with ctx.sut("restoring M0"):
             s["M0"] = (M0 * u.rad).to(units0["M0"])
